@@ -785,4 +785,38 @@ MUTANTS = [
                         Err(_) => panic!("Could not convert Vec<T> into [T; N]"),
                     }
                 }""")]},
+    {"id": "keep-derive-build-lets", "kind": "preserving", "props": [], "edits": [
+        (NF, """            ::std::result::Result::Ok(#create {
+                #(
+                    #field_names : #field_names.map(#field_maps).unwrap(),
+                )*
+            })""", """            #(
+                let #field_names = #field_names.map(#field_maps).unwrap();
+            )*
+            ::std::result::Result::Ok(#create {
+                #(
+                    #field_names : #field_names,
+                )*
+            })""")]},
+    {"id": "keep-derive-tag-match-form", "kind": "preserving", "props": [], "edits": [
+        (DE, """                        let tag_value = ::deserr::Map::remove(&mut deserr_map__, #tag).ok_or_else(|| {
+                            ::deserr::take_cf_content(<#err_ty as ::deserr::DeserializeError>::error::<V>(
+                                None,
+                                ::deserr::ErrorKind::MissingField {
+                                    field: #tag,
+                                },
+                                deserr_location__
+                            ))
+                        })?;""", """                        let tag_value = match ::deserr::Map::remove(&mut deserr_map__, #tag) {
+                            ::std::option::Option::Some(tag_value) => tag_value,
+                            ::std::option::Option::None => {
+                                return ::std::result::Result::Err(::deserr::take_cf_content(<#err_ty as ::deserr::DeserializeError>::error::<V>(
+                                    None,
+                                    ::deserr::ErrorKind::MissingField {
+                                        field: #tag,
+                                    },
+                                    deserr_location__
+                                )));
+                            }
+                        };""")]},
 ]
